@@ -276,3 +276,52 @@ proof {
             final(tr).failed == old(tr).failed,     // @C11.handle_request_with_signature.records_no_denial
             r is Ok,
 """)
+
+                u.take_fn(ps, "ProxyServer::convert_request",
+                          pre_body="broadcast use axiom_fmt_collect_error;",
+                          e9=[("body.collect().await", None, "body: Limited<Incoming>", "body", "core::result::Result<VxCollected, VxCollectError>", """
+    ensures (r matches Ok(d) ==> body_bytes(body) == Some(collected_view(d))),
+            (r is Err ==> body_bytes(body) is None),""",
+                               dict(name="vx_e9_collect_limited", local=True, is_async=True, body="match body.collect().await { Ok(c) => Ok(VxCollected(c)), Err(e) => Err(VxCollectError(e)) }"))],
+                          contract="""
+        ensures r matches Ok(q) ==> req_method(q) == req_method(request) && req_uri(q) == req_uri(request) && req_headers(q) == req_headers(request)
+                    && body_bytes(req_body(request)) == Some(full_view(req_body(q))),   // @C14+C15.convert_request.whole_body_within_limit_or_error
+                r is Err ==> body_bytes(req_body(request)) is None,
+""")
+                u.take_fn(ps, "ProxyServer::handle_provision_state_check_request", external_body=True, contract="        ensures r is Ok,\n")
+                u.take_fn(ps, "ProxyServer::handle_new_http_request",
+                          ghost="Tracked(tr): Tracked<&mut HTrace>",
+                          ghost_calls=[("log_connection_summary", "all", "Tracked(tr)"),
+                                       ("forward_response", None, "Tracked(tr)"),
+                                       ("handle_request_with_signature", None, "Ghost(orig), Tracked(tr)"),
+                                       ("send_request", None, "Ghost(self.key_keeper_shared_state), Ghost(orig)")],
+                          pre_body="""broadcast use group_http_fmt, axiom_fmt_error, axiom_key_view_hn, axiom_fmt_serde_error, axiom_fmt_socketaddr, axiom_fmt_ipv4, axiom_to_string_ipv4;
+proof { lits_headers(); }
+let ghost tcp0 = tcp_connection_context;
+let ghost url0 = req_uri(request);
+let ghost kk0 = self.key_keeper_shared_state;
+let ghost orig = fwd_spec_of(request, if tcp_connection_context.claims is Some { tcp_connection_context.claims->0.runAsElevated } else { false });
+""",
+                          e9=status_e9() + [
+                              ("tcp_connection_context.clone()", None, "c: &TcpConnectionContext", "&tcp_connection_context", "TcpConnectionContext", "    ensures r == *c,",
+                               dict(name="vx_e9_tcp_ctx_clone", local=True, body="c.clone()")),
+                              ("c.clone()", None, CLAIMS_CLONE[0], "&c", CLAIMS_CLONE[1], CLAIMS_CLONE[2], dict(name="vx_e9_claims_clone", body="c.clone()")),
+                              ("claims.clone()", None, CLAIMS_CLONE[0], "&claims", CLAIMS_CLONE[1], CLAIMS_CLONE[2], dict(name="vx_e9_claims_clone", body="c.clone()")),
+                              ("self.key_keeper_shared_state.clone()", None, "k: &KeyKeeperSharedState", "&self.key_keeper_shared_state", "KeyKeeperSharedState", "    ensures r == *k,",
+                               dict(name="vx_e9_kk_clone", local=True, body="k.clone()")),
+                          ],
+                          e6=[("host_claims", None, ["$@", "bool_text($)"])],
+                          contract="""
+        ensures
+            r is Ok,
+            // C01: a request that may not be relayed is answered with the statement's error status and an empty body
+            !is_provision_query(req_uri(request)) && !may_relay(tcp_connection_context, req_uri(request), self.key_keeper_shared_state) ==>
+                body_is_empty(resp_body(r->Ok_0)) && (status_code(resp_status(r->Ok_0)) == 500
+                    || status_code(resp_status(r->Ok_0)) == refusal_status(tcp_connection_context, req_uri(request), self.key_keeper_shared_state)),  // @C01.handle_new_http_request.refused_with_404_421_500_403
+            // C11: every denial (enforce or audit) adds exactly one occurrence, an allowed request none
+            reaches_authorization(tcp_connection_context, req_uri(request), self.key_keeper_shared_state) && final(tr).failed != old(tr).failed ==>
+                auth_result(tcp_connection_context, req_uri(request), self.key_keeper_shared_state) != AuthorizeResult::Ok,   // @C11.handle_new_http_request.allowed_request_records_nothing
+            final(tr).failed == old(tr).failed || (final(tr).failed.len() == old(tr).failed.len() + 1 && final(tr).failed.drop_last() == old(tr).failed
+                && tcp_connection_context.claims is Some && tcp_connection_context.destination_ip is Some
+                && final(tr).failed.last() == denial_event(tcp_connection_context, vx_status_forbidden())),   // @C11.handle_new_http_request.at_most_one_occurrence_under_callers_identity
+""")
